@@ -188,13 +188,10 @@ def check(ctx):
         re_ = calls(rb, "AsyncReadExt::read_to_end")
         ok = len(te) == 1 and len(re_) == 1
         if ok:
-            n = flow.strip(arg(an, te[0][0], te[0][1], 1))
-            # (length as u64) - 1
-            if n[0] == "field" and n[2] == "0":
-                n = flow.strip(n[1])
-            shape = n[0] == "binop" and n[1] in ("Sub", "SubWithOverflow", "SubUnchecked") and flow.strip(n[3]) == ("const", "u64", 1)
-            lv = flow.strip(n[2]) if shape else None
-            from_len = shape and lv[0] == "cast" and bool(find_all(lv, lambda x: x[0] == "select_out"))
+            from .c04 import frame_value
+            n = arg(an, te[0][0], te[0][1], 1)
+            # the limit is (frame length − 1) for every length: an integer expression over the length, checked at sample points
+            shape = from_len = all(frame_value(n, L) == L - 1 for L in (1, 2, 5, 977, 1000))
             src = flow.strip(arg(an, te[0][0], te[0][1], 0))
             on_stream = self_field(src) == "stream"
             rd = arg(an, re_[0][0], re_[0][1], 0)
